@@ -27,7 +27,7 @@ func propC05(c *Ctx) propInfo {
 	c.floor("E12.dict-lookup", 3)
 	c.floor("E5.codec-pair", 2)
 	return propInfo{
-		explanation: "Static structural clauses of C05 (DESIGN.md §4 C05): the label writer emits hml_short (0, unary, bits) or hml_long (10, bounded length, bits) and both label readers accept exactly hml_short, hml_long and hml_same with the bounded length taken from the remaining-key-length parameter; writer and readers pass remaining-label-1 to both children, visit the 0 child before the 1 child, and extend the key prefix with the bit of the branch taken; keys and values are appended on the same paths and Put inserts both at the same index; Get scans all keys with Equal and only Put orders keys with Compare; key types implement FixedSize/Equal/Compare as the natural order; HashmapE envelopes agree; integer writers are called with widths the primitive supports. Decides these necessary conditions, not equality of the decoded mapping nor insertion-order independence.",
+		explanation: "Static structural clauses of C05 (DESIGN.md §4 C05): the label writer emits hml_short (0, unary, bits) or hml_long (10, bounded length, bits) and both label readers accept exactly hml_short, hml_long and hml_same with the bounded length taken from the remaining-key-length parameter; writer and readers pass remaining-label-1 to both children, visit the 0 child before the 1 child, and extend the key prefix with the bit of the branch taken; keys and values are appended on the same paths and Put inserts both at the same index; Get scans all keys with Equal and only Put orders keys with Compare; key types implement FixedSize/Equal/Compare as the natural order; HashmapE envelopes agree; integer writers are called with widths the primitive supports. Decides these necessary conditions, not equality of the decoded mapping nor insertion-order independence. Also: the label at a node is the prefix common to ALL keys of the node (minimising loop over all keys, or sorted producers).",
 	}
 }
 
